@@ -102,6 +102,24 @@ def positional(rep, mod, G, methods, gnode):
     rep.ob('C20.positions', 'do_step keeps 4 numbers (n, m, dx, dy)', ok)
     if not ok:
         rep.violate('C20.positions', mod, '<module>', 'do_step', 'do_step must keep exactly four numbers', node=gnode)
+    # signed steps: the two step terminals must admit a sign and no sign token may be filtered out in front of them
+    ds = G.alts.get('do_step', [])
+    kept_ok = sign_ok = True
+    for syms, *_ in ds:
+        kept = [s2 for s2 in syms if not (s2.is_term and s2.filter_out)]
+        for i, s2 in enumerate(syms):
+            if s2.is_term and s2.filter_out and str(G.terminals[s2.name].pattern.value) in ('-', '+'):
+                sign_ok = False
+    step_terms = set()
+    for syms, *_ in ds:
+        kept = [s2.name for s2 in syms if not (s2.is_term and s2.filter_out)]
+        if len(kept) == 4:
+            step_terms |= set(kept[2:])
+    kept_ok = 'SIGNED_NUMBER' in step_terms
+    ok = kept_ok and sign_ok
+    rep.ob('C20.positions', f'do_step: step values may be negative (terminals {sorted(step_terms)}), no sign token is dropped', ok)
+    if not ok:
+        rep.violate('C20.positions', mod, '<module>', 'do_step', 'grammar rule do_step must keep the sign of the STEP values (SIGNED_NUMBER alternative; a literal "-" is filtered out of the tree and the sign is lost)', node=gnode)
     seqs = G.callback_sequences('point')
     ok = {len(s) for s in seqs} == {2, 3}
     rep.ob('C20.positions', 'point keeps 2 or 3 coordinates', ok)
